@@ -83,7 +83,7 @@ macro_rules! soa_suite {
                 let nops = 1 + rng.below(if ctx.is_miri() { 10 } else { 24 });
                 for _ in 0..nops {
                     let len = model.len();
-                    let kind = rng.below(17);
+                    let kind = rng.below(20);
                     match kind {
                         0 | 1 => {
                             let e = fresh(1).pop().unwrap();
@@ -296,6 +296,52 @@ macro_rules! soa_suite {
                                 y2[i] = key(&mk(7));
                             }
                             h.check(x == y2, "box_iter_mut_after_set", || json!({"soa": x, "model": y2}));
+                        }
+                        17 | 18 | 19 => {
+                            // iterator adaptors that reach nth / nth_back / size_hint / last of the component iterators, on
+                            // the borrowing, the owning and the draining iterator
+                            let k = rng.below(len as u64 + 2) as usize;
+                            let step = 1 + rng.below(3) as usize;
+                            h.op(format!("adaptors nth({k}) nth_back({k}) rev.skip({k}) step_by({step}) take({k}).rev last"));
+                            let ym: Vec<Vec<u32>> = model.iter().map(|c| key(c)).collect();
+                            macro_rules! adapt {
+                                ($aname:expr, $amk:expr, $aconv:expr) => {{
+                                    let mut it = $amk;
+                                    let a1 = it.nth(k).map($aconv);
+                                    let a2 = it.nth_back(k).map($aconv);
+                                    let a3: Vec<Vec<u32>> = it.map($aconv).collect();
+                                    let mut mi = ym.iter().cloned();
+                                    let b1 = mi.nth(k);
+                                    let b2 = mi.nth_back(k);
+                                    let b3: Vec<Vec<u32>> = mi.collect();
+                                    h.check(a1 == b1 && a2 == b2 && a3 == b3, concat!("iterator_adaptors:", $aname, ":nth_then_nth_back_then_rest"), || json!({"k": k, "soa": [format!("{:?}", a1), format!("{:?}", a2), format!("{:?}", a3)], "model": [format!("{:?}", b1), format!("{:?}", b2), format!("{:?}", b3)]}));
+                                    let a: Vec<Vec<u32>> = ($amk).rev().skip(k).map($aconv).collect();
+                                    let b: Vec<Vec<u32>> = ym.iter().cloned().rev().skip(k).collect();
+                                    h.check(a == b, concat!("iterator_adaptors:", $aname, ":rev_skip"), || json!({"k": k, "soa": a, "model": b}));
+                                    let a: Vec<Vec<u32>> = ($amk).step_by(step).map($aconv).collect();
+                                    let b: Vec<Vec<u32>> = ym.iter().cloned().step_by(step).collect();
+                                    let a2: Vec<Vec<u32>> = ($amk).rev().step_by(step).map($aconv).collect();
+                                    let b2: Vec<Vec<u32>> = ym.iter().cloned().rev().step_by(step).collect();
+                                    h.check(a == b && a2 == b2, concat!("iterator_adaptors:", $aname, ":step_by"), || json!({"step": step, "soa": a, "model": b, "soa_rev": a2, "model_rev": b2}));
+                                    let a: Vec<Vec<u32>> = ($amk).take(k).rev().map($aconv).collect();
+                                    let b: Vec<Vec<u32>> = ym.iter().cloned().take(k).rev().collect();
+                                    let (al, bl) = (($amk).last().map($aconv), ym.last().cloned());
+                                    h.check(a == b && al == bl, concat!("iterator_adaptors:", $aname, ":take_rev_last"), || json!({"k": k, "soa": a, "model": b}));
+                                }};
+                            }
+                            adapt!("iter", s.iter(), |c| key(&c.copied()));
+                            adapt!("into_iter", s.clone().into_iter(), |c| key(&c));
+                            {
+                                let mut tmp = s.clone();
+                                let mut it = tmp.drain(..);
+                                let a1 = it.nth(k).map(|c| key(&c));
+                                let a2 = it.nth_back(k).map(|c| key(&c));
+                                let a3: Vec<Vec<u32>> = it.map(|c| key(&c)).collect();
+                                let mut mi = ym.iter().cloned();
+                                let (b1, b2) = (mi.nth(k), mi.nth_back(k));
+                                let b3: Vec<Vec<u32>> = mi.collect();
+                                h.check(a1 == b1 && a2 == b2 && a3 == b3, "iterator_adaptors:drain:nth_then_nth_back_then_rest", || json!({"k": k}));
+                            }
                         }
                         _ => {
                             h.op("slice views: get(..) into_iter, get(i) on slice".into());
